@@ -130,6 +130,47 @@ def resolve(F):
     return out
 
 
+def _field_writers(F, adt):
+    """functions containing an assignment to (a part of) a field of a value of type `adt`"""
+    out = set()
+
+    def base_is_adt(e):
+        while e.get("k") in ("Field", "Index", "Deref", "Use", "Borrow"):
+            if e["k"] == "Field":
+                t = F.types[F.strip_ref(e["lhs"]["t"])] if isinstance(e["lhs"].get("t"), int) else None
+                if t is not None and t.get("k") == "adt" and t.get("def") == adt:
+                    return True
+                e = e["lhs"]
+            elif e["k"] == "Index":
+                e = e["lhs"]
+            else:
+                e = e.get("arg") or e.get("src")
+                if e is None:
+                    return False
+        return False
+
+    for d, b in F.bodies.items():
+        found = []
+
+        def visit(e):
+            if isinstance(e, dict):
+                if e.get("k") in ("Assign", "AssignOp") and base_is_adt(e["lhs"]):
+                    found.append(e)
+                elif e.get("k") == "Borrow" and e.get("mut") and base_is_adt(e.get("arg", {})):
+                    found.append(e)
+                for v in e.values():
+                    if isinstance(v, (dict, list)):
+                        visit(v)
+            elif isinstance(e, list):
+                for v in e:
+                    visit(v)
+
+        visit(b.get("body"))
+        if found:
+            out.add(d)
+    return out
+
+
 def builder_invariants(F):
     """adt -> {field: upper bound}: bounds on a builder's private integer fields that every way of making or changing a
     builder value preserves (construction discipline: the fields are private, so only the type's own constructors and
@@ -166,8 +207,11 @@ def builder_invariants(F):
         if any(d not in dflt for d in extra):
             continue
         makers += dflt
-        cur = {f: max(cs) for f, cs in cands.items()}          # start from the weakest candidate that is still a restriction
-        cur = {f: min(cs) for f, cs in cands.items()}          # ... no: start from the strongest and weaken
+        # ... and so must every assignment to one of its fields (a `&mut self` mutator is not covered by the argument)
+        writers = _field_writers(F, adt)
+        if any(w not in makers for w in writers):
+            continue
+        cur = {f: min(cs) for f, cs in cands.items()}          # start from the strongest candidate and weaken
         changed = True
         rounds = 0
         while changed and rounds < 6:
